@@ -71,10 +71,14 @@ pub fn main(args: &[String]) -> i32 {
         let seed: u64 = o.num("seed", 1);
         let n_calls: u64 = o.num("calls", 1000);
         let max_req: u64 = o.num("maxreq", 8);
+        let max_held: usize = o.num("maxheld", 0usize);
         let mut rng = StdRng::seed_from_u64(seed);
         let mut held: Vec<(u64, u64)> = Vec::new();
         for _ in 0..n_calls {
-            let r = rng.random_range(0..100);
+            let mut r = rng.random_range(0..100);
+            // sparse use of a large device: few outstanding allocations, so the free space is one long
+            // run next to a handful of small holes
+            if max_held > 0 && held.len() >= max_held && r < 40 { r = 40 + r % 30; }
             if r < 40 {
                 let n = if rng.random_range(0..20) == 0 { 0 } else { rng.random_range(1..=max_req) };
                 if let Some(s) = do_alloc(&mut out, &mut m, n) {
